@@ -222,6 +222,10 @@ TABLE = {
 }
 
 
+# number of CrossReferenceErrors check() emits for ONE dangling reference at the site
+CHECK_REPORTS = {("SubGroup", "identifier_list"): 2}
+
+
 def parents(types):
     p = {}
     for n, t in types.items():
@@ -267,6 +271,7 @@ def main():
                 if e['cst']:
                     ent["check_source_type"] = e['cst']
                     ent["check_target_type"] = e['ctt']
+                ent["check_reports"] = CHECK_REPORTS.get(key, 1 if e['check'] else 0)
                 ent["merge"] = e['merge']
                 ent["cleanup"] = e['cleanup']
                 if e['by_parent']:
